@@ -301,6 +301,7 @@ impl<'a> LineBreaker<'a> {
 
             inner_list.extend_from_slice(&h_list[start_of_line..*break_point]);
             start_of_line = *break_point + 1;
+            let mut prune_start_of_next_line = true;
 
             // TeX.2021.881
             // This is the check that `q != null` in Knuth's TeX.
@@ -315,6 +316,9 @@ impl<'a> LineBreaker<'a> {
                         for pre_break_node in discretionary.pre_break {
                             inner_list.push(pre_break_node.into());
                         }
+                        // If there is post-break material the next line starts with it
+                        // and nothing is pruned.
+                        prune_start_of_next_line = discretionary.post_break.is_empty();
                         disc_post_break_nodes = Some(discretionary.post_break);
                         start_of_line += discretionary.replace_count as usize;
                     }
@@ -338,6 +342,22 @@ impl<'a> LineBreaker<'a> {
                     _ => {
                         unreachable!("node cannot appear as a breakpoint: {break_point_node:?}");
                     }
+                }
+            }
+
+            // TeX.2021.879
+            // Prune the discardable nodes at the beginning of the next line,
+            // up to the next breakpoint.
+            if let Some(next_break_point) = break_points.get(line_index + 1) {
+                while prune_start_of_next_line && start_of_line < *next_break_point {
+                    match h_list.get(start_of_line) {
+                        Some(ds::Horizontal::Glue(_))
+                        | Some(ds::Horizontal::Penalty(_))
+                        | Some(ds::Horizontal::Math(_)) => {}
+                        Some(ds::Horizontal::Kern(kern)) if kern.kind == KernKind::Explicit => {}
+                        _ => break,
+                    }
+                    start_of_line += 1;
                 }
             }
 
@@ -522,10 +542,14 @@ impl<'a> LineBreaker<'a> {
                 // TeX.2021.869: nodes replaced by a discretionary only contribute their width
                 if let Some(e) = elem {
                     diffs.width += match e {
-                        Char(ds::Char { char, font }) | Ligature(ds::Ligature { char, font, .. }) => {
+                        Char(ds::Char { char, font })
+                        | Ligature(ds::Ligature { char, font, .. }) => {
                             font_repo.width(*char, *font).unwrap_or(Scaled::ZERO)
                         }
-                        HBox(ds::HBox { width, .. }) | VBox(ds::VBox { width, .. }) | Rule(ds::Rule { width, .. }) | Kern(ds::Kern { width, .. }) => *width,
+                        HBox(ds::HBox { width, .. })
+                        | VBox(ds::VBox { width, .. })
+                        | Rule(ds::Rule { width, .. })
+                        | Kern(ds::Kern { width, .. }) => *width,
                         _ => Scaled::ZERO,
                     };
                     continue;
@@ -602,7 +626,8 @@ impl<'a> LineBreaker<'a> {
                     }
                     Glue(glue) => {
                         // TeX.2021.868
-                        if auto_breaking && prev.map(|j| list[j].precedes_break()).unwrap_or(false) {
+                        if auto_breaking && prev.map(|j| list[j].precedes_break()).unwrap_or(false)
+                        {
                             // List of allowable line breaks in TeXBook chapter 14 p96:
                             // (a) at glue, provided that this glue is immediately preceded by
                             // a non-discardable item, and that it is not part of a math formula
@@ -797,60 +822,43 @@ impl<'a> LineBreaker<'a> {
                     let mut diffs = diffs.clone();
                     if let Some(elem) = elem {
                         // TeX.2021.837
-                        match elem {
-                            Discretionary(discretionary) => {
-                                // TeX.2021.840
-                                let mut j = i + 1;
-                                while j < i + 1 + discretionary.replace_count as usize {
-                                    // TeX.2021.841
-                                    diffs.width += match &list[j] {
-                                        Char(ds::Char { char, font })
-                                        | Ligature(ds::Ligature { char, font, .. }) => {
-                                            font_repo.width(*char, *font).unwrap_or(Scaled::ZERO)
-                                        }
-                                        HBox(ds::HBox { width, .. })
-                                        | VBox(ds::VBox { width, .. })
-                                        | Rule(ds::Rule { width, .. })
-                                        | Kern(ds::Kern { width, .. }) => *width,
-                                        _ => {
-                                            eprintln!(
-                                                "invalid node {:?} in discretionary replacement list",
-                                                &list[j]
-                                            );
-                                            Scaled::ZERO
-                                        }
-                                    };
-                                    j += 1;
-                                }
-                                for elem in &discretionary.post_break {
-                                    // TeX.2021.842
-                                    use ds::DiscretionaryElem::*;
-                                    diffs.width -= match elem {
-                                        Char(ds::Char { char, font })
-                                        | Ligature(ds::Ligature { char, font, .. }) => {
-                                            font_repo.width(*char, *font).unwrap_or(Scaled::ZERO)
-                                        }
-                                        HBox(ds::HBox { width, .. })
-                                        | VBox(ds::VBox { width, .. })
-                                        | Rule(ds::Rule { width, .. })
-                                        | Kern(ds::Kern { width, .. }) => *width,
+                        let mut s = i;
+                        let mut skip = true;
+                        if let Discretionary(discretionary) = elem {
+                            // TeX.2021.840
+                            let mut j = i + 1;
+                            while j < i + 1 + discretionary.replace_count as usize {
+                                diffs.width += match &list[j] {
+                                    Char(ds::Char { char, font })
+                                    | Ligature(ds::Ligature { char, font, .. }) => {
+                                        font_repo.width(*char, *font).unwrap_or(Scaled::ZERO)
                                     }
+                                    HBox(ds::HBox { width, .. })
+                                    | VBox(ds::VBox { width, .. })
+                                    | Rule(ds::Rule { width, .. })
+                                    | Kern(ds::Kern { width, .. }) => *width,
+                                    _ => Scaled::ZERO,
+                                };
+                                j += 1;
+                            }
+                            for elem in &discretionary.post_break {
+                                diffs.width -= elem.width(font_repo);
+                            }
+                            s = j;
+                            skip = discretionary.post_break.is_empty();
+                        }
+                        if skip {
+                            while let Some(e) = list.get(s) {
+                                match e {
+                                    Glue(glue) => diffs.update_from_glue(&glue.value),
+                                    Penalty(_) | Math(_) => {}
+                                    Kern(kern) if kern.kind == ds::KernKind::Explicit => {
+                                        diffs.width += kern.width
+                                    }
+                                    _ => break,
                                 }
+                                s += 1;
                             }
-                            Math(_math) => {
-                                // TODO when math node is fixed in boxworks crate.
-                            }
-                            Glue(glue) => {
-                                diffs.update_from_glue(&glue.value);
-                            }
-                            Kern(kern) => {
-                                // The kern is discarded after the break, so the next line
-                                // starts after it, like for the glue above.
-                                if kern.kind == ds::KernKind::Explicit {
-                                    diffs.width += kern.width;
-                                }
-                            }
-                            _ => {}
                         }
                     }
                     for fitness_class in [
